@@ -264,7 +264,7 @@ class RaggedArray(IndexableArray, np.lib.mixins.NDArrayOperatorsMixin):
             if self._shape.lengths[-1] == 0:
                 first_last_empty_row = np.searchsorted(self._shape.starts, self._shape.starts[-1], side='left')
                 result = ufunc.reduceat(self.ravel(), self._shape.starts[:first_last_empty_row])
-                result = np.pad(result, (0, len(self._shape.starts)-first_last_empty_row), constant_values=ufunc.identity)
+                result = np.pad(result, (0, len(self._shape.starts)-first_last_empty_row), constant_values=0 if ufunc.identity is None else ufunc.identity)
             else:
                 result = ufunc.reduceat(self.ravel(), self._shape.starts)
 
